@@ -25,7 +25,7 @@ from checks.c01 import world_reductions
 PROPERTY = "C15"
 ENGINE = "H+W"
 DEFAULT_SEED = 1515
-RUNS = {"quick": 500, "thorough": 40000}
+RUNS = {"quick": 800, "thorough": 40000}
 JOBS = {"quick": 8, "thorough": 16}
 SEARCH_SPACE = "histories of load() calls on one long-lived dataset x interrupt faults (k-th file open raises KeyboardInterrupt/EIO, predicate raises at its k-th evaluation)"
 RULE = ("one run = one world + one history of 2..8 load() calls on one RamsesDataset, each compared with a fresh dataset given the same arguments; "
@@ -80,6 +80,10 @@ def gen_call(rng, p):
             uniq = [x[0] for x in p["part"]["columns"] if x[1] in ("d", "i") and x[0][-2:] not in ("_x", "_y", "_z")]
             if uniq:
                 c["sortby"]["part"] = rng.choice(uniq)
+        if p["sink"] and not p["sink"].get("empty") and rng.random() < 0.5:
+            names = [x[0] for x in p["sink"]["columns"] if x[0] not in ("x", "y", "z", "vx", "vy", "vz")]
+            if names:
+                c["sortby"]["sink"] = rng.choice(names)
         if not c["sortby"]:
             c["sortby"]["mesh"] = "dx"
     # optional extras riding on any call
@@ -104,7 +108,15 @@ def generate(rng, tier):
         if p["part"]:
             p["part"]["counts"] = [rng.choice([0, 1, 2, 3, 5]) for _ in range(p["ncpu"])]
     ncalls = rng.choice([2, 2, 3, 4, 5, 8])
-    calls = [gen_call(rng, p) for _ in range(ncalls)]
+    calls = []
+    for _ in range(ncalls):
+        c = gen_call(rng, p)
+        # a call that sets per-call reader state is often followed by one that does not touch that reader at all
+        if calls and calls[-1]["kind"] in ("pred_pos", "pred_level", "cpu_list", "vars", "sortby") and rng.random() < 0.4:
+            c = {"kind": rng.choice(["part_only", "mesh_off", "groups", "full"])}
+            if c["kind"] == "groups":
+                c["groups"] = rng.choice([["part"], ["sink"], ["part", "sink"], ["mesh"]])
+        calls.append(c)
     faulty = rng.random() < 0.4
     if faulty:
         for c in calls[:-1]:
@@ -348,7 +360,8 @@ def reductions(case, viol):
                 ok = False
             if "part" in c and q["part"] is None:
                 ok = False
-            if "sortby" in c and ((c["sortby"].get("mesh", "dx") not in ["dx"] + q["hydro_vars"]) or ("part" in c["sortby"] and q["part"] is None)):
+            if "sortby" in c and ((c["sortby"].get("mesh", "dx") not in ["dx"] + q["hydro_vars"]) or ("part" in c["sortby"] and q["part"] is None)
+                                  or ("sink" in c["sortby"] and q["sink"] is None)):
                 ok = False
         if ok:
             yield dict(case, world=q)
